@@ -87,3 +87,10 @@ Lemma set_st_set_st w s s' : set_st (set_st w s) s' = set_st w s'. Proof. reflex
 Lemma st_emit w n l : st (emit w n l) = st w. Proof. reflexivity. Qed.
 Lemma bal_emit w n l : bal (emit w n l) = bal w. Proof. reflexivity. Qed.
 #[export] Hint Rewrite st_set_st bal_set_st evs_set_st rlog_set_st locks_set_st seeds_set_st set_st_set_st st_emit bal_emit : world.
+
+Lemma sumN_cons x l : sumN (x :: l) = x + sumN l.
+Proof. reflexivity. Qed.
+Lemma sumN_nil : sumN [] = 0.
+Proof. reflexivity. Qed.
+Lemma sumN_app l1 l2 : sumN (l1 ++ l2) = sumN l1 + sumN l2.
+Proof. induction l1 as [|a l IH]; cbn [app]; rewrite ?sumN_nil, ?sumN_cons; lia. Qed.
